@@ -1,0 +1,21 @@
+//go:build verif
+// +build verif
+
+package cpu
+
+import (
+	"os"
+	"strconv"
+)
+
+// Verification hook (build tag "verif" only): lets a test process pretend the
+// host CPU reported a given acceleration level. It runs during package
+// initialisation, i.e. before any dependent package picks its encoder, so the
+// override is indistinguishable from a CPU that reports that level.
+func init() {
+	if v := os.Getenv("FASTGO_VERIF_ARCHLEVEL"); v != "" {
+		if n, err := strconv.Atoi(v); err == nil && n >= 0 && n <= 4 {
+			ArchLevel = n
+		}
+	}
+}
